@@ -5,7 +5,9 @@ C04/C05 — MTProto 2.0 message encryption: `crypto.Cipher.Encrypt` (crypto/ciph
 
 Regenerated parts (`TdModel.Facts.C04`): `countPadding` (translated Go function), the ordered
 validity checks of the `switch` in `Cipher.Decrypt` (`decryptChecks`, interpreted by `firstFailing`),
-the alignment modulus and the presence of the key-id / msg_key comparisons.  Key derivation is the
+the alignment modulus and the presence of the key-id / msg_key comparisons, the `Put*` sequences of
+`EncryptedMessageData.Encode` / `EncodeWithoutCopy`, the reads of `DecodeWithoutCopy` (interpreted by
+`encodeWith` / `decodeFields`) and the `EncryptedMessage` frame lengths.  Key derivation is the
 code-shaped `C06.Impl` (itself regenerated tables); AES-IGE is `TdModel.Ige`.  Core Lean only.
 -/
 import TdModel.Model.C06
@@ -16,7 +18,7 @@ import TdModel.Gen.C04
 namespace TdModel.C04
 open TdModel TdModel.Bin
 open TdModel.C06 (Side)
-open TdModel.Facts.C04 (Chk Lhs Op)
+open TdModel.Facts.C04 (Chk Lhs Op Put Width Fld)
 
 /-- `crypto.countPadding(l, randByte)`: the regenerated translation, on naturals. -/
 def countPadding (l : Nat) (r : UInt8) : Nat :=
@@ -36,10 +38,31 @@ structure Data where
 /-- `EncryptedMessageData.Data()` = `MessageDataWithPadding[:MessageDataLen]`. -/
 def Data.payload (d : Data) : Bytes := d.body.take d.len
 
-/-- `EncryptedMessageData.Encode` (and `EncodeWithoutCopy`, which writes the same bytes with
-`len = len(encoded Message)`). -/
+/-- Value of a header field. -/
+def fldVal (salt sid mid seq len : Nat) : Fld → Nat
+  | .salt => salt
+  | .sid => sid
+  | .mid => mid
+  | .seq => seq
+  | .len => len
+  | .body => 0
+
+/-- Interpreter of a regenerated `b.PutX(e.Field)` sequence. -/
+def encodeWith (ps : List Put) (salt sid mid seq len : Nat) (body : Bytes) : Bytes :=
+  ps.flatMap fun p =>
+    match p.w with
+    | .u32 => putU32 (fldVal salt sid mid seq len p.f)
+    | .u64 => putU64 (fldVal salt sid mid seq len p.f)
+    | .raw => body
+
+/-- `EncryptedMessageData.Encode` — the `Put*` sequence is regenerated (`Facts.C04.dataEncode`). -/
 def encodeData (salt sid mid seq len : Nat) (body : Bytes) : Bytes :=
-  putU64 salt ++ putU64 sid ++ putU64 mid ++ putU32 seq ++ putU32 len ++ body
+  encodeWith Facts.C04.dataEncode salt sid mid seq len body
+
+/-- `EncryptedMessageData.EncodeWithoutCopy` with `Message ≠ nil`: the regenerated sequence with the
+length placeholder patched to the encoded size of `Message` (`payload` = what `Message` encodes to). -/
+def encodeDataNoCopy (salt sid mid seq : Nat) (payload : Bytes) : Bytes :=
+  encodeWith Facts.C04.dataEncodeNoCopy salt sid mid seq payload.length payload
 
 inductive Err where
   | rand
@@ -86,6 +109,24 @@ def encrypt (P : Prims) (side : Side) (authKey keyId : Bytes) (salt sid mid seq 
     (payload rnd : Bytes) : Except Err Bytes :=
   encryptData P side authKey keyId salt sid mid seq payload.length payload rnd
 
+/-- `Cipher.encryptMessage` on an already encoded plaintext. -/
+def encryptPlain (P : Prims) (side : Side) (authKey keyId pt rnd : Bytes) : Except Err Bytes :=
+  match rnd with
+  | [] => .error .rand
+  | r :: rest =>
+    let pad := countPadding pt.length r
+    if rest.length < pad then .error .rand
+    else
+      let padded := pt ++ rest.take pad
+      let mk := C06.Impl.msgKey P authKey padded side
+      let kiv := C06.Impl.keys P authKey mk side
+      .ok (keyId ++ mk ++ Ige.enc (P.aesEnc kiv.1) kiv.2 padded)
+
+/-- `Cipher.Encrypt` with `Message ≠ nil` (the `EncodeWithoutCopy` path). -/
+def encryptMessage (P : Prims) (side : Side) (authKey keyId : Bytes) (salt sid mid seq : Nat)
+    (payload rnd : Bytes) : Except Err Bytes :=
+  encryptPlain P side authKey keyId (encodeDataNoCopy salt sid mid seq payload) rnd
+
 def chkFails (c : Chk) (n pad : Int) : Bool :=
   let l := match c.lhs with
     | .n => n
@@ -112,8 +153,34 @@ def decryptMessage (P : Prims) (side : Side) (authKey keyId kid mk body : Bytes)
     let kiv := C06.Impl.keys P authKey mk side.flip
     .ok (Ige.dec (P.aesDec kiv.1) kiv.2 body)
 
-/-- `EncryptedMessageData.DecodeWithoutCopy`. -/
+def setFld (d : Data) (f : Fld) (v : Nat) : Data :=
+  match f with
+  | .salt => { d with salt := v }
+  | .sid => { d with sid := v }
+  | .mid => { d with mid := v }
+  | .seq => { d with seq := v }
+  | .len => { d with len := v }
+  | .body => d
+
+/-- Interpreter of a regenerated `v := b.X(); e.Field = v` sequence (any read error is `eof`). -/
+def decodeFields : List Put → Data → Bytes → Except Err (Data × Bytes)
+  | [], d, b => .ok (d, b)
+  | p :: ps, d, b =>
+    match (match p.w with | .u32 => getU32 b | .u64 => getU64 b | .raw => .error .eof) with
+    | .ok (v, r) => decodeFields ps (setFld d p.f v) r
+    | .error _ => .error .eof
+
+/-- `EncryptedMessageData.DecodeWithoutCopy` — the reads are regenerated (`Facts.C04.dataDecode`), the
+rest of the buffer is `MessageDataWithPadding`, then the `MessageDataLen > len(rest)` test. -/
 def decodeData (pt : Bytes) : Except Err Data :=
+  match decodeFields Facts.C04.dataDecode ⟨0, 0, 0, 0, 0, []⟩ pt with
+  | .error e => .error e
+  | .ok (d, r) =>
+    if Facts.C04.dataLenChecked && decide (toInt32 d.len > (r.length : Int)) then .error .dataLen
+    else .ok { d with body := r }
+
+/-- The same decoder written out (`decodeData_def` proves they coincide). -/
+def decodeDataLit (pt : Bytes) : Except Err Data :=
   match getU64 pt with
   | .ok (salt, r) =>
     match getU64 r with
@@ -140,11 +207,11 @@ def plaintextOf (P : Prims) (side : Side) (authKey c : Bytes) : Bytes :=
 
 /-- `Cipher.DecryptFromBuffer` = `EncryptedMessage.DecodeWithoutCopy` then `Cipher.Decrypt`. -/
 def decrypt (P : Prims) (side : Side) (authKey keyId c : Bytes) : Except Err Data :=
-  if c.length < 8 + 16 then .error .eof
+  if c.length < Facts.C04.frameKeyIdLen + Facts.C04.frameMsgKeyLen then .error .eof
   else
-    let kid := c.take 8
-    let mk := (c.drop 8).take 16
-    let body := c.drop 24
+    let kid := c.take Facts.C04.frameKeyIdLen
+    let mk := (c.drop Facts.C04.frameKeyIdLen).take Facts.C04.frameMsgKeyLen
+    let body := c.drop (Facts.C04.frameKeyIdLen + Facts.C04.frameMsgKeyLen)
     match decryptMessage P side authKey keyId kid mk body with
     | .error e => .error e
     | .ok pt =>
